@@ -130,6 +130,21 @@ def compile_one(job):
     return (src, p.returncode, out, False, time.time() - t0)
 
 
+def _compiles_against_head(src, comp, flags):
+    """syntax-check `src` against the include tree of /repo's HEAD commit (exported to a scratch directory)"""
+    import tempfile
+    tmp = tempfile.mkdtemp(prefix="vfhead", dir=BUILD)
+    try:
+        p = subprocess.run("git -C %s archive HEAD include | tar -x -C %s" % (REPO, tmp), shell=True, stdout=subprocess.PIPE, stderr=subprocess.STDOUT)
+        if p.returncode != 0:
+            return False
+        f2 = [("-I" + os.path.join(tmp, "include")) if f == "-I" + os.path.join(REPO, "include") else f for f in flags]
+        p = subprocess.run([comp] + f2 + ["-fsyntax-only", src], stdout=subprocess.PIPE, stderr=subprocess.STDOUT)
+        return p.returncode == 0
+    finally:
+        shutil.rmtree(tmp, ignore_errors=True)
+
+
 def prune_build(inc_key):
     """Keep objects/binaries of the 5 most recently used include-tree keys."""
     os.makedirs(BUILD, exist_ok=True)
@@ -190,6 +205,10 @@ def build_engine(engine, flavour, tier, sources, extra_flags=(), gen_includes=()
         for r in ex.map(compile_one, jobs):
             if r[1] != 0:
                 m = re.search(r"(/\S*/include/nop/\S+?):(\d+):\d+: (?:fatal )?error: (.*)", r[2])
+                if m and not _compiles_against_head(r[0], comp, flags):
+                    # the same translation unit does not compile against the committed (HEAD) headers either:
+                    # the harness asks for a shape the library never supported -> harness failure, not a violation
+                    raise HarnessError("compile failed (also against the HEAD headers): %s\n%s" % (r[0], r[2]))
                 if m:
                     msg = re.sub(r"'[^']*'", "'..'", m.group(3))[:80]
                     raise BuildViolation("build-error@%s:%s" % (m.group(1).split("/include/nop/")[1], msg.strip().replace(" ", "_")), r[2], r[0])
